@@ -15,53 +15,91 @@ pub fn take_log() -> Vec<u32> {
     LOG.with(|l| std::mem::take(&mut *l.borrow_mut()))
 }
 
-/// expected shape: payload + children
+/// expected shape: payload code + children
 pub struct T(pub u32, pub &'static [T]);
+
+/// Payload types the cases are instantiated with: `u32` itself, and `NodeId` (an arena of links
+/// to nodes of *another* arena: a macro that dispatches on the type of an entry must still treat
+/// such an entry as a value).
+pub trait Pay: Copy + PartialEq + std::fmt::Debug + 'static {
+    fn of(code: u32) -> Self;
+}
+impl Pay for u32 {
+    fn of(code: u32) -> u32 {
+        code
+    }
+}
+thread_local! { static FOREIGN: (Arena<u8>, Vec<NodeId>) = {
+    let mut a = Arena::new();
+    let ids = (0..64).map(|i| a.new_node(i as u8)).collect();
+    (a, ids)
+}; }
+impl Pay for NodeId {
+    /// ids of a foreign arena, chosen so that they are also valid positions of the arena under test
+    fn of(code: u32) -> NodeId {
+        FOREIGN.with(|f| f.1[(code % 7) as usize])
+    }
+}
 
 /// Root forms: 0 = value (no pre-existing node), 1 = fresh NodeId, 2 = NodeId with two children,
 /// 3 = NodeId that is itself a middle child (and has one child of its own)
-pub fn setup(arena: &mut Arena<u32>, form: u32) -> (Option<NodeId>, Vec<u32>) {
+pub fn setup<P: Pay>(arena: &mut Arena<P>, form: u32) -> (Option<NodeId>, Vec<u32>) {
     match form {
         0 => (None, vec![]),
-        1 => (Some(arena.new_node(9000)), vec![]),
+        1 => (Some(arena.new_node(P::of(9000))), vec![]),
         2 => {
-            let r = arena.new_node(9000);
-            r.append_value(9001, arena);
-            r.append_value(9002, arena);
+            let r = arena.new_node(P::of(9000));
+            r.append_value(P::of(9001), arena);
+            r.append_value(P::of(9002), arena);
             (Some(r), vec![9001, 9002])
         }
-        _ => {
-            let p = arena.new_node(8000);
-            p.append_value(8001, arena);
-            let r = p.append_value(9000, arena);
-            p.append_value(8003, arena);
-            r.append_value(9001, arena);
+        3 => {
+            let p = arena.new_node(P::of(8000));
+            p.append_value(P::of(8001), arena);
+            let r = p.append_value(P::of(9000), arena);
+            p.append_value(P::of(8003), arena);
+            r.append_value(P::of(9001), arena);
             (Some(r), vec![9001])
+        }
+        4 => {
+            // a fresh NodeId root in an arena with one removed, not yet recycled slot
+            let x = arena.new_node(P::of(7000));
+            let r = arena.new_node(P::of(9000));
+            x.remove(arena);
+            (Some(r), vec![])
+        }
+        _ => {
+            // a value root in an arena where remove_subtree left three free slots
+            let x = arena.new_node(P::of(7000));
+            x.append_value(P::of(7001), arena);
+            x.append_value(P::of(7002), arena);
+            x.remove_subtree(arena);
+            (None, vec![])
         }
     }
 }
 
-fn compare(arena: &Arena<u32>, id: NodeId, expect_payload: u32, pre: &[u32], kids: &[T], path: &str) -> Result<usize, String> {
+fn compare<P: Pay>(arena: &Arena<P>, id: NodeId, expect_payload: u32, pre: &[u32], kids: &[T], path: &str) -> Result<usize, String> {
     let node = arena.get(id).ok_or_else(|| format!("{path}: id not in arena"))?;
     if node.is_removed() {
         return Err(format!("{path}: node is removed"));
     }
-    if *node.get() != expect_payload {
-        return Err(format!("{path}: payload {} but {} was written", node.get(), expect_payload));
+    if *node.get() != P::of(expect_payload) {
+        return Err(format!("{path}: payload {:?} but {:?} (code {}) was written", node.get(), P::of(expect_payload), expect_payload));
     }
     let children: Vec<NodeId> = id.children(arena).collect();
     if children.len() != pre.len() + kids.len() {
         return Err(format!(
             "{path}: has {} children {:?}, the literal writes {} after {} existing ones",
             children.len(),
-            children.iter().map(|c| *arena[*c].get()).collect::<Vec<_>>(),
+            children.iter().map(|c| format!("{:?}", arena[*c].get())).collect::<Vec<_>>(),
             kids.len(),
             pre.len()
         ));
     }
     for (i, p) in pre.iter().enumerate() {
-        if arena[children[i]].get() != p {
-            return Err(format!("{path}: existing child {i} is no longer first (found {})", arena[children[i]].get()));
+        if *arena[children[i]].get() != P::of(*p) {
+            return Err(format!("{path}: existing child {i} is no longer first (found {:?})", arena[children[i]].get()));
         }
     }
     let mut n = 1;
@@ -81,8 +119,8 @@ fn compare(arena: &Arena<u32>, id: NodeId, expect_payload: u32, pre: &[u32], kid
 }
 
 #[allow(clippy::too_many_arguments)]
-pub fn check(
-    arena: &Arena<u32>,
+pub fn check<P: Pay>(
+    arena: &Arena<P>,
     ret: NodeId,
     given: Option<NodeId>,
     pre: Vec<u32>,
@@ -112,7 +150,9 @@ pub fn check(
     }
     let created_expected = written as usize + if given.is_none() { 1 } else { 0 };
     let live1 = arena.iter().filter(|n| !n.is_removed()).count();
-    if arena.count() != count0 + created_expected || live1 != live0 + created_expected {
+    // free slots may be recycled, so count() grows by at most the number created; the number of
+    // live nodes grows by exactly that number
+    if arena.count() > count0 + created_expected || arena.count() < count0 || live1 != live0 + created_expected {
         return Err(format!(
             "{} node(s) created (count {} -> {}, live {} -> {}), {} expression(s) written",
             live1 as i64 - live0 as i64, count0, arena.count(), live0, live1, created_expected
@@ -123,8 +163,8 @@ pub fn check(
     // the surroundings of a root that is a middle child are untouched
     if let Some(g) = given {
         if let Some(p) = arena[g].parent() {
-            let sibs: Vec<u32> = p.children(arena).map(|c| *arena[c].get()).collect();
-            if sibs != vec![8001, 9000, 8003] {
+            let sibs: Vec<P> = p.children(arena).map(|c| *arena[c].get()).collect();
+            if sibs != vec![P::of(8001), P::of(9000), P::of(8003)] {
                 return Err(format!("siblings of the root changed: {:?}", sibs));
             }
         }
@@ -133,7 +173,7 @@ pub fn check(
 }
 
 pub fn selfcheck() {
-    let mut a = Arena::new();
+    let mut a: Arena<u32> = Arena::new();
     let (r, pre) = setup(&mut a, 3);
     assert_eq!(pre, vec![9001]);
     assert!(a[r.unwrap()].parent().is_some());
